@@ -33,7 +33,9 @@ def normalOrderedH (j : Json) : Except String Json := do
   let a ← J.op (← J.field j "a")
   -- `r`: as coded (EQ_TOLERANCE); `r0`: tolerance 0 (no deletion), the version the soundness
   -- theorems are about — the harness checks that both agree up to exact zeros (exact regime)
-  .ok (J.obj [("r", J.ofOp (normalOrdered tol k a)), ("r0", J.ofOp (normalOrdered 0 k a))])
+  -- `lattice`: the decidable hypothesis of `normal_ordered_exact_regime_of_latB` (D = 2^26, tol·D ≤ 1)
+  .ok (J.obj [("r", J.ofOp (normalOrdered tol k a)), ("r0", J.ofOp (normalOrdered 0 k a)),
+              ("lattice", Json.bool (latB (2 ^ 26) a && decide (0 ≤ tol) && decide (tol * ((2 ^ 26 : Nat) : Rat) ≤ 1)))])
 
 def noTermH (j : Json) : Except String Json := do
   let k ← parseKind (← J.field j "kind")
